@@ -16,7 +16,7 @@
    Properties_C05 (one value per scope, regions). *)
 From Coq Require Import String Ascii.
 From Coq Require Import ZArith List Bool.
-From SqfVerif Require Import Gen.DiagCodes Gen.Overloads VM.VmDefs VM.VmExec VM.RefSem VM.C02Proofs.
+From SqfVerif Require Import Gen.DiagCodes Gen.Overloads VM.VmDefs VM.VmExec VM.RefSem VM.C02Proofs VM.SimDefs VM.SimProofs.
 Import ListNotations.
 Local Open Scope string_scope.
 Local Open Scope list_scope.
@@ -141,3 +141,26 @@ Example ex_ref_and_vm_agree :
   run_ref 200 ex_prog = "OK:M<out>,M<3>,V<77>" /\
   run_final (load (create_rt [] 0 0 (100 * 100) 150) (compile_block ex_prog)) = "-1:0:3:60019,M<out>,3:60019,M<3>,3:60095,M<VALUE 77>,".
 Proof. split; vm_compute; reflexivity. Qed.
+
+(* ---- simulation, expression fragment: one derivation pev loc glob e v yields both runs *)
+Theorem C02_ref_evaluates_pure_expressions : forall loc glob e v, pev loc glob e v ->
+  forall s f, renv_ok loc glob s -> esize e <= f -> eval f s e = (ONormal v, s).
+Proof. intros loc glob e v H. exact (proj2 (proj1 (pure_ref loc glob) e v H)). Qed.
+Print Assumptions C02_ref_evaluates_pure_expressions.
+Theorem C02_vm_evaluates_pure_expressions : forall loc glob e v, pev loc glob e v ->
+  forall r c f rest pre post,
+    Good r c -> c_frames c = f :: rest -> f_code f = pre ++ compile_expr e ++ post -> f_pos f = length pre ->
+    f_base f <= length (c_values c) -> env_ok loc glob r (f :: rest) (f_ns f) ->
+    Steps r (upd_cur r (adv c f rest (length (compile_expr e)) [cv v])).
+Proof. intros loc glob e v H r c f rest pre post G EF EC EP B ENV. exact (proj1 (proj1 (pure_sim loc glob) e v H r c f rest pre post G EF EC EP B ENV)). Qed.
+Print Assumptions C02_vm_evaluates_pure_expressions.
+(* the fragment is not empty: a nested expression over a local and a global variable *)
+Example pure_fragment_inhabited :
+  pev (fun k => if String.eqb k "_a" then Some (RNum 4) else None) (fun k => if String.eqb k "g" then Some (RArr [RNum 1]) else None)
+      (EBinary "+" (EArr [EBinary "-" (EVar "_a") (ENum 1); EUnary "count" (EVar "g")]) (EArr [EBool true]))
+      (RArr [RNum 3; RNum 1; RBool true]).
+Proof.
+  eapply PBin; [eapply PArr; eapply PCons; [eapply PBin; [eapply PVarL; reflexivity|eapply PNum|reflexivity]|
+                   eapply PCons; [eapply PUn; [intros ? ?; discriminate|eapply PVarG; reflexivity|reflexivity]|eapply PNil]]
+                  |eapply PArr; eapply PCons; [eapply PBool|eapply PNil]|reflexivity].
+Qed.
